@@ -24,35 +24,12 @@ RevT   == ndJsonDeserialize(IOEnv.REVS)
 Rng(s) == {s[i] : i \in DOMAIN s}
 
 ItemIx == [t \in {ItemT[i].tok : i \in DOMAIN ItemT} |-> CHOOSE i \in DOMAIN ItemT : ItemT[i].tok = t]
-RevIx  == [t \in {RevT[i].rev : i \in DOMAIN RevT} |-> CHOOSE i \in DOMAIN RevT : RevT[i].rev = t]
 RawItem(t) == ItemT[ItemIx[t]]
-RevRec(r)  == RevT[RevIx[r]]
 
 NoRev == ""
 
------------------------------------------------------------------------------
-(* The C05 order, written out on the recorded identifier text:             *)
-(* resolution markers lowest; then longer history (index) first; ties by   *)
-(* byte-wise comparison of the identifier.                                 *)
-RECURSIVE LexLess(_, _, _)
-LexLess(a, b, i) ==
-    IF i > Len(a) THEN i <= Len(b)
-    ELSE IF i > Len(b) THEN FALSE
-    ELSE IF a[i] # b[i] THEN a[i] < b[i]
-    ELSE LexLess(a, b, i + 1)
-
-TIdx(r)   == RevRec(r).idx
-TIsRes(r) == RevRec(r).kind = "r"
-TIsDel(r) == RevRec(r).kind = "d"
-TSpecial(r) == RevRec(r).kind \in {"r", "d", "e", "c"}
-TDig(r)   == RevRec(r).dig
-TRevLess(a, b) ==
-    /\ a # b
-    /\ IF TIsRes(a) /\ TIsRes(b) THEN LexLess(RevRec(a).bytes, RevRec(b).bytes, 1)
-       ELSE IF TIsRes(a) THEN TRUE
-       ELSE IF TIsRes(b) THEN FALSE
-       ELSE IF TIdx(a) # TIdx(b) THEN TIdx(a) < TIdx(b)
-       ELSE LexLess(RevRec(a).bytes, RevRec(b).bytes, 1)
+\* the C05 order on the recorded identifiers (RevRec, TIdx, TIsRes, TIsDel, TSpecial, TDig, TRevLess)
+INSTANCE RevOrder
 
 Core == INSTANCE MeldaCore WITH RevLess <- TRevLess, Idx <- TIdx, IsRes <- TIsRes,
                                 SpecialRev <- TSpecial, DigOf <- TDig, NoRev <- NoRev
@@ -189,7 +166,8 @@ IsErrStr(s) == Len(s) >= 4 /\ SubSeq(s, 1, 4) = "ERR:"
 
 -----------------------------------------------------------------------------
 (* C08 — every operation returns *)
-C08_Returns_A == Acting
+\* (states with driver-damaged storage are not reachable through the public API: they are C10's business)
+C08_Returns_A == Acting /\ ~Damaged
 C08_Returns_C ==
     /\ E.res.kind \in {"ok", "err"}
     /\ HasObs(E.obs) \/ "closed" \in DOMAIN E.obs
